@@ -372,9 +372,11 @@ fn parse_date_str_to_timestamps(date_str: &str) -> Option<i64> {
                 m.as_str().to_string()
             });
         // If no year input.
-        let year = captures
-            .get(2)
-            .map_or(now.year(), |m| m.as_str().parse().unwrap());
+        // (\d also matches digits of other scripts, which are no number to parse())
+        let year = match captures.get(2) {
+            Some(m) => m.as_str().parse().ok()?,
+            None => now.year(),
+        };
         // If the user does not enter a specific time, it will be filled with 0
         let time_str = captures.get(3).map_or("00:00:00", |m| m.as_str());
         let date_time_str = format!("{month_day}, {year} {time_str}");
